@@ -28,6 +28,8 @@ BOUNDS = {
     "thorough": "values: all reals; same routes; every unit <-> its base unit of every quantity type for the four scalar routes; 12000 seeded "
                 "unit pairs for every other route; container lengths 0..3",
 }
+BOUNDS_ALSO = "; also: the simple filler's expression-string units through 12 container routes; units spelled [(u,1)] / ((u,1),) for 4 value kinds; every way of building an object from a category default in another unit (5 forms); Clear() followed by a new configuration of the same database object (2 orders)"
+BOUNDS = {k_: v_ + BOUNDS_ALSO for k_, v_ in BOUNDS.items()}
 ASSUMPTIONS = ["A-FP: floats are exact reals", "A-NP: numpy float64 element loops are the python operator per element (dtype=object SymArray)",
                "oracle = frombase_v(tobase_u(x)) taken from the real closures (anchored by C01)", "A-SHIM",
                "int amounts are concrete (-7, 0, 3): the int branch shares the float code"]
